@@ -261,7 +261,13 @@ def cacheOpen (dir : Dir) (B : Nat) (src : DataSess) (cb : Option Bool) : Dir ×
       match dataLenLines d, dataLenLines src with
       | .ok clen, .ok slen =>
         -- repair::add_missing_data
-        let ahead := clen * B ≥ slen + B
+        -- ahead by a whole bucket, or (after the fix) the last bucket reaches beyond the source and
+        -- is newer than the last line left in the source (`Option` order: `None < Some`)
+        let newer : Bool := match d.lastTime, src.lastTime with
+          | some c, some t => decide (c > t)
+          | some _, none => true
+          | none, _ => false
+        let ahead : Bool := decide (clen * B ≥ slen + B) || (decide (clen * B > slen) && newer)
         let (st, d) : Store × DataSess :=
           if ahead then
             ({ st with data := st.data.map (·.take d.hdrLen), index := st.index.map (·.take d.ihdrLen) },
